@@ -269,7 +269,10 @@ def gen(rng, tier):
     else:
         for (mw, k) in combos:
             for nev in (100, 1000, 5000, 20000):
-                if nev == 20000 and (mw, k) not in [(64 * KIB, 1), (64 * KIB, 3.5), (128 * KIB, 2), (1024 * KIB, 10)]:
+                # the extracted model appends to Coq lists: long files (1 MiB) make it quadratic
+                if nev == 20000 and (mw, k) not in [(64 * KIB, 1), (64 * KIB, 3.5), (128 * KIB, 2)]:
+                    continue
+                if nev == 5000 and mw >= 1024 * KIB and k != 10:
                     continue
                 cases.append(gen_writer_case(rng, nev, mw, int(mw * k), ka=rng.choice([0, 60]), npre=rng.choice([0, 2, 5]),
                                              restarts=rng.choice([0, 1, 3, 6]), snap_every=max(nev // 40, 1)))
@@ -394,8 +397,8 @@ def shrink(case):
                 rest = [o for j, o in enumerate(ops) if j not in drop]
                 yield "writer " + " ".join(x for o2 in rest for x in o2)
     for j, o in enumerate(ops):
-        if o[0] == "S" and not any(p[0] == "S" for p in ops[:j]):
-            continue
+        if o[0] == "S":
+            continue          # events need a running writer
         if o[0] == "X":
             continue
         if o[0] == "snap" and j == len(ops) - 1:
